@@ -8,6 +8,7 @@ from ..env import gfapy, GfapyError
 from ..runner import Part, Violation
 
 ID = "C15"
+ATHERIS = ['gfa1', 'copy-numbers']  # parts also driven by libFuzzer in the thorough tier (vf/runner.py: all_parts)
 RULE = ("part 'gfa2': GFA2 graphs with named and anonymous E lines of every kind (dovetail, containment, internal) "
         "with count tags, gaps / fragments / sets as bystanders, without link distribution: copies of segments and "
         "of every incident edge, floor-divided counts, unique edge identifiers. part 'gfa1': GFA1 graphs (segments with sequence/LN, custom and count tags RC/FC/KC; links on both ends incl. parallel "
@@ -640,7 +641,7 @@ def prop_cn(case):
     want_c = Counter()
     for r in recs:
         if r.rt == "C":
-            want_c[contkey(r.pos, [])[1]] = cn[r.pos[0]] * cn[r.pos[2]]
+            want_c[contkey(r.pos, [])[1]] += cn[r.pos[0]] * cn[r.pos[2]]
     got_c = Counter()
     for c in g.containments:
         rec = G.split_line(O.line_text(c), "gfa1")
